@@ -1,0 +1,5 @@
+//go:build !verif
+
+package replayfilter
+
+func verifGate(string, []byte) {}
